@@ -131,7 +131,7 @@ func (c *PlanCache) Get(schema *Schema, query, operationName string) PlanResult 
 
 	if !c.opts.Normalize {
 		// Plain cache: raw query string is the key.
-		key := operationName + "\x00" + query
+		key := strconv.Itoa(len(operationName)) + ":" + operationName + query
 		if pr, ok := c.lookup(schema, key); ok {
 			return pr
 		}
